@@ -10,5 +10,10 @@ cp ocaml/gen/${E}_model.ml ocaml/gen/${E}_model.mli $W/
 MOD="$(echo ${E:0:1} | tr a-z A-Z)${E:1}_model"
 { echo "module M = $MOD"; cat ocaml/pvio.inc.ml; cat ocaml/${E}_driver.ml; } > $W/${E}_main.ml
 cd $W
-ocamlfind ocamlopt -package zarith -linkpkg -O3 -w -a ${E}_model.mli ${E}_model.ml ${E}_main.ml -o /verif/_work/bin/${E}_model 2>&1 | grep -v "^$" || true
-test -x /verif/_work/bin/${E}_model
+# compile to a private name and rename: a failed compile must not leave an older binary in place, and a
+# binary that another check is executing must not be rewritten under it
+T=/verif/_work/bin/.${E}_model.$$
+rm -f $T
+ocamlfind ocamlopt -package zarith -linkpkg -O3 -w -a ${E}_model.mli ${E}_model.ml ${E}_main.ml -o $T 2>&1 | grep -v "^$" || true
+test -x $T || { rm -f /verif/_work/bin/${E}_model; echo "ocaml build of $E failed" >&2; exit 1; }
+mv -f $T /verif/_work/bin/${E}_model
